@@ -458,10 +458,10 @@ func genTCP(r *hysim.Rand, tier string) *hysim.Script {
 	if T == 0 {
 		T = 4000
 	}
-	sc.Cfg["rewrite"] = int64(r.Pick(0, 1))
-	sc.Cfg["ah"] = int64(r.Pick(0, 0, 0, 1, 2, 3, 3, 4, 5))
+	sc.Cfg["rewrite"] = int64(r.Pick(0, 1, 1))
+	sc.Cfg["ah"] = int64(r.Pick(0, 0, 0, 0, 0, 1, 1, 2, 2, 3, 3, 4, 5))
 	sc.Cfg["ap"] = int64(r.Intn(len(portTable)))
-	sc.Cfg["pf"] = int64(r.Pick(0, 0, 0, 0, 1, 1, 2, 3, 4, 5, 6, 7))
+	sc.Cfg["pf"] = int64(r.Pick(0, 0, 0, 0, 0, 0, 0, 1, 1, 1, 2, 3, 4, 4, 5, 6, 6, 7))
 	sc.Cfg["dl_first"] = int64(r.Pick(0, 1))
 	sc.Cfg["end"] = int64(r.Pick(0, 0, 0, 1, 2, 2, 3))
 	sc.Cfg["lead_ms"] = r.Pick64(0, 0, 0, 1, T/2)
@@ -795,8 +795,12 @@ func execTCP(x *hysim.Run) {
 
 	// ---- (b) destination
 	if !panicked {
+		// TLS: the whole first record as declared and the name must have been handed over.
+		// HTTP: the Host line including its terminator; whether a parser insists on seeing the
+		// blank line as well is its own business (net/http accepts a block that ends in a bare
+		// CR at end of stream), the name is "actually present" either way.
 		need := meta.unitEnd
-		if meta.hostEnd > need {
+		if meta.hostEnd > need || meta.kind == "http" {
 			need = meta.hostEnd
 		}
 		complete := meta.expHost != "" && len(st.handed) >= need
